@@ -624,7 +624,10 @@ class _ScopeVisitor(_ExpressionVisitor):
                 try:
                     pyname = module[name]
                 except exceptions.AttributeNotFoundError:
-                    pyname = pynamesdef.AssignedName(node.lineno)
+                    # every function that declares the name shares one binding
+                    pyname = module.declared_globals.setdefault(
+                        name, pynamesdef.AssignedName(node.lineno)
+                    )
             self.names[name] = pyname
 
 
